@@ -719,6 +719,16 @@ impl Model {
                 free_mode.push(a);
             }
         }
+        // a file or directory copied onto an existing link is written through the link (or
+        // refused); where it lands is outside the documented domain. Decided before anything
+        // else: a conflict elsewhere in the tree does not make the order of events knowable.
+        for k in self.t.subtree(&s) {
+            let e = &self.t.nodes[&k];
+            let dst = format!("{}{}", t_root, &k[s.len()..]);
+            if self.k(&dst) != K::Missing && self.t.nodes[&dst].kind == Kind::Link && e.kind != Kind::Link {
+                return lenient(vec!["/".into()]);
+            }
+        }
         let mut conflict = false;
         let mut soft_conflict = false;
         // the kind a copied link records depends on whether its target already exists at that
